@@ -32,6 +32,8 @@ func main() {
 		os.Exit(props.CheckMain(os.Args[2:]))
 	case "replay":
 		os.Exit(props.ReplayMain(os.Args[2:]))
+	case "manifest":
+		os.Exit(props.ManifestMain(os.Args[2:]))
 	case "selfcheck":
 		os.Exit(props.SelfcheckMain(os.Args[2:]))
 	default:
